@@ -108,6 +108,13 @@ def catalogue(tk):
         out.append(("empty-blob-wrong-size", newvec("BLOB", "DEV", vec, [one("BLOB", e1, None, size="5")]), {}, True))
         out.append(("empty-blob-non-numeric-size", newvec("BLOB", "DEV", vec, [one("BLOB", e1, None, size="abc")]), {}, True))
         out.append(("empty-blob-wrong-size-then-valid", newvec("BLOB", "DEV", vec, [one("BLOB", e1, None, size="5"), one("BLOB", "B", good)]), {(vec, "B"): [good], "required": (vec, "B")}, True))
+        # a "compressed" format with sizes beyond a machine word, or a payload that really is a zlib stream
+        import zlib as _z
+
+        zpay = base64.b64encode(_z.compress(b"x" * 64)).decode()
+        for sz in ("18446744073709551616", "9223372036854775807", "9223372036854775806", "64", "0"):
+            out.append(("compressed-format-odd-size", newvec("BLOB", "DEV", vec, [one("BLOB", e1, zpay, size=sz, format=".fits.z")]), {(vec, e1): "any-blob"}, True))
+            out.append(("compressed-format-odd-size-not-zlib", newvec("BLOB", "DEV", vec, [one("BLOB", e1, good, size=sz, format=".z")]), {(vec, e1): "any-blob"}, True))
         out.append(("missing-blob-size", newvec("BLOB", "DEV", vec, [one("BLOB", e1, good, size=None)]), {}, False))
         out.append(("missing-blob-format", newvec("BLOB", "DEV", vec, [one("BLOB", e1, good, format=None)]), {}, False))
     # message kinds a client should not send, addressed to the target property
